@@ -488,16 +488,51 @@ def read_back_ptb(t, text, which, ctx):
             pass
 
 
+JA_SYMBOLS = {'SSEQ', '>', '<', '>B', '<B1', '<B2', '<B3', '<B4', '>Bx1', '>Bx2', '>Bx3', 'ADNext', 'ADNint', 'ADV0', 'ADV1', 'ADV2'}
+_ATOM = re.compile(r'[A-Za-z]+(?:\[[^\]]*\])?')
+
+
+def bank_annotate(line, suffix):
+    """the line with the bank's dependency annotations put on every category: {Ik} after every atomic category and every bracket,
+    and on leaves the predicate-argument suffix (_none, _I1, _I1(I2,_,_,_), ...) -- the forms of tests/test_cat.py::test_parse_marked_ja_categries"""
+    def deco(cat, leaf, k):
+        n = [0]
+
+        def idx():
+            n[0] += 1
+            return '{I%d}' % n[0]
+        out = _ATOM.sub(lambda m_: m_.group(0) + idx(), cat)
+        out = out.replace(')', '){I1}')
+        if ('/' in cat or '\\' in cat) and leaf:
+            out = '(' + out + '){I1}'
+        return out + (suffix(k) if leaf else '')
+    out, i, k = [], 0, 0
+    while i < len(line):
+        if line[i] == '{':
+            j = line.find(' ', i)
+            head = line[i + 1:j]
+            if head in JA_SYMBOLS:
+                e = line.find(' ', j + 1)
+                out.append('{' + head + ' ' + deco(line[j + 1:e], False, k) + ' ')
+                i = e + 1
+            else:
+                e = line.find('}', j)
+                out.append('{' + deco(head, True, k) + line[j:e + 1])
+                k += 1
+                i = e + 1
+        else:
+            out.append(line[i])
+            i += 1
+    return ''.join(out)
+
+
 def read_back_ja(t, text, ctx):
     path = os.path.join(TMP, 'x.ja')
-    variants = [text]
-    with open(path, 'w', encoding='utf-8') as fh:
-        fh.write(text + '\n')
-    try:
-        res = list(T.ja_reader.read_ccgbank(path))
-    except Exception as e:           # noqa
-        return fail('C20', 'read_ccgbank raises on a line depccg printed', text=text, error=f'{type(e).__name__}: {e}'[:200], **ctx)
-    r = res[0].tree if res else None
+    sufs = ['_none', '_I1', '_I1(I2,_,_,_)', '_I1(I2,_,I3,_)', '_I1(I2,I3,_,_)', '']
+    pick = [rng.choice(sufs) for _ in range(64)]
+    variants = [('as printed', text), ('with the bank annotations {Ik} and _none', bank_annotate(text, lambda k: '_none')),
+                ('with the bank annotations {Ik} and predicate-argument suffixes', bank_annotate(text, lambda k: pick[k % 64])),
+                ('with the bank annotations {Ik} and _I1(I2,_,_,_)', bank_annotate(text, lambda k: '_I1(I2,_,_,_)'))]
 
     def sig(n, read):
         try:
@@ -510,8 +545,18 @@ def read_back_ja(t, text, ctx):
                 w_ = {'-LRB-': '(', '-RRB-': ')', '-LCB-': '{', '-RCB-': '}', '-LSB-': '[', '-RSB-': ']'}.get(w_, w_)
             return ('L', c, w_)
         return ('N', n.op_symbol, c, tuple(sig(k, read) for k in n.children))
-    if r is None or sig(r, True) != sig(t, False):
-        fail('C20', 'tree read from the Japanese bank format differs (categories / shape / words / rule symbols)', text=text, got=repr(sig(r, True))[:300] if r else None, **ctx)
+    for what, line in variants:
+        with open(path, 'w', encoding='utf-8') as fh:
+            fh.write(line + '\n')
+        try:
+            res = list(T.ja_reader.read_ccgbank(path))
+        except Exception as e:           # noqa
+            fail('C20', 'read_ccgbank raises on a line depccg printed (' + what + ')', text=line, error=f'{type(e).__name__}: {e}'[:200], **ctx)
+            continue
+        r = res[0].tree if res else None
+        if r is None or sig(r, True) != sig(t, False):
+            fail('C20', 'tree read from the Japanese bank format (' + what + ') differs (categories / shape / words / rule symbols)', text=line,
+                 got=repr(sig(r, True))[:300] if r else None, **ctx)
 
 
 TOOLS = None
